@@ -87,6 +87,7 @@ func runC07(p *Prog, r *Report) {
 	c.checkProductions(prods)
 	c.rejectionGuards(prods)
 	c.literalRank(prods)
+	c.scopeGrammarClosed()
 	c7EntryConsumesAll(c.p, c.r)
 	c7CharacterNarrowing(c.p, c.r)
 	c7LiteralAccumulation(c.p, c.r)
